@@ -611,6 +611,17 @@ def replay_pwd():
             except (ValueError, TypeError):
                 continue
             return "call #%d: a generator over an alphabet with repeated symbols is accepted (returned %r)" % (k + 1, out)
+    # application secrets (passlib.totp.generate_secret)
+    import passlib.totp as T
+    for cs in ("0123456789abcdef", "ab", T.BASE64_CHARS[:-2], T.BASE64_CHARS, "abcdefghijklmnopqrstuvwxyz234567", "0123456789"):
+        for ent in list(range(1, 70)) + [80, 100, 128, 160, 192, 222, 255, 256, 257, 384, 512]:
+            sec = T.generate_secret(entropy=ent, charset=cs)
+            if not set(sec) <= set(cs):
+                return "generate_secret(%d, %r) returned %r" % (ent, cs, sec)
+            if len(cs) ** len(sec) < 2 ** ent:
+                return "generate_secret(entropy=%d) over %d symbols returns %d symbols: fewer than %d bits" % (ent, len(cs), len(sec), ent)
+            if len(sec) > 1 and len(cs) ** (len(sec) - 2) >= 2 ** ent:
+                return "generate_secret(entropy=%d) over %d symbols returns %d symbols: far more than needed" % (ent, len(cs), len(sec))
     # one draw per symbol through getrandstr-like uniform choice: recorded on a stub rng
     asked = []
 
